@@ -92,6 +92,18 @@ CHECKS = {
         design_ref='§7 C01',
         note=NOTE_COMMON + 'Findings C01-F1/F2 (right-recursive grouping of comparisons and &) are open with syntactic guards computed by the spec; within a guard the deviant outcome is not modelled (precision any).',
         technique='TLA+ executable grammar/evaluator as oracle, TLC-enumerated chains replayed, trace validation'),
+    'C10': dict(
+        category='model_checking',
+        text=('TLC checks on the comparison oracle (XlCompare.Cmp3 over exact rationals, date-times, pure dates, texts, blank, FALSE) '
+              'that it obeys the laws it demands (trichotomy, negation laws, a<b <=> b>a), is transitive and reflexive, orders numbers '
+              'exactly and states the blank / midnight clauses, over every pair (and triple) of the value grid; it enumerates every '
+              'in-scope ordered pair. Binding: each pair is evaluated by the real pipeline for all six operators in both operand orders '
+              'with operands as overrides, workbook cells, literals and through the public file path, and TLC (Trace_C10) judges every '
+              'observation: pinned pairs must show exactly Six(Cmp3), every in-scope pair must satisfy the laws; seeded random pairs '
+              'beyond the grid are judged the same way.'),
+        design_ref='§7 C10',
+        note=NOTE_COMMON + 'Cross-kind pairs and blank vs TRUE are out of scope; for two texts and blank vs a negative number only the laws are demanded.',
+        technique='TLA+ comparison oracle with TLC-checked laws, TLC-enumerated pairs replayed, trace validation of all observations'),
 }
 
 NOT_APPLICABLE = {}
